@@ -35,11 +35,12 @@ theorem c18_timeout_pass_reclaims (s : State) (now : Nat) :
     have hsel : selects q.1 r.2 = true := by simp [selects, hinst, hlabel]
     have hany : ((s.hb.filter (timedOut now)).map (·.1)).any (fun d => selects d r.2) = true :=
       List.any_eq_true.2 ⟨q.1, hqd, hsel⟩
-    have h2 := hr.2
-    simp only [hany, Bool.true_and, Bool.not_eq_true', deletable, Bool.and_eq_false_iff] at h2
-    cases h2 with
-    | inl h => exact h
-    | inr h => simp [hinst, hne] at h
+    have hd : deletable shardOf s r.2 = false := by simpa [hany] using hr.2
+    have hI : (r.2.inst != []) = true := by simp [hinst, hne]
+    show isLeader s (shardOf r.2.upstream) = false ∨ s.failing.contains r.2.name = true
+    unfold deletable at hd
+    rw [hI] at hd
+    cases hL : isLeader s (shardOf r.2.upstream) <;> cases hF : s.failing.contains r.2.name <;> simp_all
 
 /-- **Reclaim, unknown pass**: afterwards every condition in a led shard is instance-less or owned by an instance of
     the heartbeat table; the in-flight states of the unknown owners found are dropped in every store. -/
@@ -49,15 +50,14 @@ theorem c18_unknown_pass_reclaims (s : State) : ReclaimUnknown shardOf s (cleanu
     simp only [cleanupUnknown, List.mem_filter] at hr
     have h2 := hr.1.2
     have hl' : isLeader s (shardOf r.2.upstream) = true := hl
-    simp only [deletable, hl', Bool.true_and, unknown] at h2
-    have hh : hbHas (cleanupUnknown shardOf s) r.2.inst = hbHas s r.2.inst := rfl
-    rw [hh]
+    show r.2.inst = [] ∨ hbHas s r.2.inst = true ∨ s.failing.contains r.2.name = true
+    unfold deletable unknown at h2
+    rw [hl'] at h2
     by_cases hi : r.2.inst = []
     · exact Or.inl hi
-    · right
-      cases hb : hbHas s r.2.inst
-      · simp [hb, hi] at h2
-      · rfl
+    · have hI : (r.2.inst != []) = true := by simp [hi]
+      rw [hI] at h2
+      cases hb : hbHas s r.2.inst <;> cases hF : s.failing.contains r.2.name <;> simp_all
   · intro r hr hne hun i' hi' hm p hp
     simp only [cleanupUnknown, List.mem_filter, List.mem_map] at hi'
     obtain ⟨⟨r0, hr0, rfl⟩, _⟩ := hi'
@@ -249,6 +249,16 @@ theorem c18_acquire_keeps_others (s : State) (u : Ups) (j : Inst) (rid : Int) (r
   · intro r hr _ _
     rw [acquire_conds]; exact hr
 
+/-- **A burst of parallel acquires of `j` removes nothing recorded for another instance.** -/
+theorem c18_burst_keeps_others (s : State) (u : Ups) (j : Inst) (n : Str) (st : Option IState) :
+    OthersKept none j s (burst shardOf s u j n st) := by
+  intro p hp hne
+  refine ⟨by rw [(burst_frame shardOf s u j n st).1]; exact hp, ?_, ?_⟩
+  · intro r hr _
+    exact burst_kept shardOf hne s u n st r hr
+  · intro r hr _ _
+    rw [(burst_frame shardOf s u j n st).2]; exact hr
+
 /-! ## Upstream events and leadership changes -/
 
 /-- **An upstream event** (`UpstreamConditionHandler`) for a listed upstream rewrites the upstream state condition and
@@ -301,7 +311,8 @@ theorem c18_reclaim (s0 : State) (i : Inst) (t0 now : Nat) (ops2 ops3 : List Op)
     (hi : i ≠ []) (hq2 : Quiet i ops2) (hq3 : Quiet i ops3) (hnow : now > t0 + timeout) :
     let s3 := cleanupTimeout shardOf (run shardOf (heartbeat s0 i t0) ops2) now
     let s5 := cleanupUnknown shardOf (run shardOf s3 ops3)
-    (NoHb i s3 ∧ NoState i s3) ∧ (NoHb i s5 ∧ NoState i s5 ∧ NoCondLed shardOf i s5) := by
+    (NoHb i s3 ∧ NoState i s3) ∧
+    (NoHb i s5 ∧ NoState i s5 ∧ ((run shardOf s3 ops3).failing = [] → NoCondLed shardOf i s5)) := by
   intro s3 s5
   have hls := lastSeen_run shardOf ops2 hq2 _ (lastSeen_heartbeat s0 i t0)
   have hstep := lastSeen_step shardOf _ (.cleanupTimeout now) (by simp [Op.isBy]) hls
@@ -315,18 +326,22 @@ theorem c18_reclaim (s0 : State) (i : Inst) (t0 now : Nat) (ops2 ops3 : List Op)
   have hgone4 := gone_run shardOf ops3 hq3 s3 hgone3
   have hno5 : NoHb i s5 := hgone4.1
   refine ⟨hgone3, hno5, cleanupUnknown_noState shardOf _ hgone4.2, ?_⟩
-  intro r hr hri
+  intro hfail r hr hri
   cases hl : isLeader s5 (shardOf r.2.upstream)
   · rfl
   · exfalso
-    rcases (c18_unknown_pass_reclaims shardOf (run shardOf s3 ops3)).1 r hr hl with h | h
+    rcases (c18_unknown_pass_reclaims shardOf (run shardOf s3 ops3)).1 r hr hl with h | h | h
     · exact hi (hri ▸ h)
     · obtain ⟨p, hp, hpe⟩ := List.any_eq_true.1 h
       exact hno5 p hp (by rw [hri] at hpe; simpa using hpe)
+    · have : s5.failing = [] := hfail
+      rw [this] at h; cases h
 
-/-- The same, spelled as one history from the initial state. -/
+/-- The same, spelled as one history from the initial state, for a server whose store never refuses a delete
+    (no `faults` op: every history with the local store). -/
 theorem c18_reclaim_history (ops1 ops2 ops3 : List Op) (i : Inst) (t0 now : Nat)
-    (hi : i ≠ []) (hq2 : Quiet i ops2) (hq3 : Quiet i ops3) (hnow : now > t0 + timeout) :
+    (hi : i ≠ []) (hq2 : Quiet i ops2) (hq3 : Quiet i ops3) (hnow : now > t0 + timeout)
+    (hnf : ∀ op ∈ ops1 ++ [Op.heartbeat i t0] ++ ops2 ++ [Op.cleanupTimeout now] ++ ops3, ∀ l, op ≠ .faults l) :
     let s := run shardOf init
       (ops1 ++ [Op.heartbeat i t0] ++ ops2 ++ [Op.cleanupTimeout now] ++ ops3 ++ [Op.cleanupUnknown])
     NoHb i s ∧ NoState i s ∧ NoCondLed shardOf i s := by
@@ -336,8 +351,12 @@ theorem c18_reclaim_history (ops1 ops2 ops3 : List Op) (i : Inst) (t0 now : Nat)
       (run shardOf (heartbeat (run shardOf init ops1) i t0) ops2) now) ops3) := by
     simp only [s, run_append, run_cons]
     rfl
-  rw [e]; exact h
-
+  have hf : (run shardOf (cleanupTimeout shardOf
+      (run shardOf (heartbeat (run shardOf init ops1) i t0) ops2) now) ops3).failing = [] := by
+    have := run_failing shardOf _ hnf init
+    simp only [run_append, run_cons] at this
+    exact this
+  rw [e]; exact ⟨h.1, h.2.1, h.2.2 hf⟩
 
 /-- **Live instances are left alone (`c18_live_safe`)**: in EVERY history, at every clean-up pass, whatever its timing:
     the time-out pass at `now` takes nothing from an instance none of whose heartbeats is older than the time-out at
@@ -358,7 +377,7 @@ theorem c18_return_new_identity (s0 : State) (i i' : Inst) (t0 now t1 : Nat) (op
     let s3 := cleanupTimeout shardOf (run shardOf (heartbeat s0 i t0) ops2) now
     let s4 := run shardOf s3 (opsA ++ [Op.heartbeat i' t1] ++ opsB)
     let s5 := cleanupUnknown shardOf s4
-    (NoHb i s5 ∧ NoState i s5 ∧ NoCondLed shardOf i s5) ∧ LiveSafeUnknown s4 s5 := by
+    (NoHb i s5 ∧ NoState i s5 ∧ (s4.failing = [] → NoCondLed shardOf i s5)) ∧ LiveSafeUnknown s4 s5 := by
   intro s3 s4 s5
   have hq3 : Quiet i (opsA ++ [Op.heartbeat i' t1] ++ opsB) := by
     intro op hop
@@ -497,6 +516,9 @@ theorem c18_judge_sound (s : State) (op : Op) :
   | handle u =>
     have h : EventKeeps shardOf u s (handle shardOf s u) := c18_upstream_event_keeps_conditions shardOf s u
     simp [judgeStep, step, h]
+  | burst u j n st => simp [judgeStep, step, c18_burst_keeps_others]
+  | faults names => rfl
+  | apiDelete name => rfl
 
 
 /-! ## Non-vacuity: a concrete history in which something IS recorded, reclaimed and kept
